@@ -109,6 +109,24 @@ MUTANTS = [
      "float leaf key pointer round-trips through uintptr across a scheduling point (checkptr / GC may lose it)"),
     ("m43_signed_leaf_reordered", ["C18", "C03"], [R("trees.go", "type signedLeafNode[V any] struct {\n\tkey   *byte\n\tvalue V\n\tlen   uint32\n}", "type signedLeafNode[V any] struct {\n\tvalue V\n\tkey   *byte\n\tlen   uint32\n}")],
      "signed leaf layout differs from the unsigned leaf that Range reads it through"),
+    ("n01_prefixmismatch_short", ["C01", "C11"], [R("tree.go", "\t\tmaxCmp = min(int(len(leafKey)), len(key)) - depth\n", "\t\tmaxCmp = min(int(len(leafKey)), len(key)) - depth - 1\n")],
+     "prefixMismatch stops one byte early on paths longer than the inline bytes"),
+    ("n03_shrink256_index_off", ["C10", "C01"], [R("node.go", "\t\t\t\tn48.keys[i] = uint8(pos + 1)", "\t\t\t\tn48.keys[i] = uint8(pos)")],
+     "node256 -> node48 shrink writes slot indexes off by one"),
+    ("n04_merge_skips_child_prefix", ["C11", "C01"], [R("node.go", "\t\t\t\tcopy(n4.prefix[prefix:], childNode.prefix[:])\n", "")],
+     "node4 merge does not append the child's inline path bytes"),
+    ("n05_longsplit_prefix_off", ["C11", "C01"], [R("trees.go", "\t\t\t\t\tloLimit := depth + prefixDiff + 1\n\t\t\t\t\tcopy(node.prefix[:], leafKey[loLimit:])", "\t\t\t\t\tloLimit := depth + prefixDiff\n\t\t\t\t\tcopy(node.prefix[:], leafKey[loLimit:])", nth=0)],
+     "alpha long-path split copies the child's inline bytes from one byte too early"),
+    ("n08_root_leaf_delete_no_size", ["C06"], [R("trees.go", "\t\t\tif bytes.Equal(leaf.getKey(), keyS) {\n\t\t\t\t*ref = nodeRef{}\n\t\t\t\tt.size--\n\t\t\t\treturn true\n\t\t\t}", "\t\t\tif bytes.Equal(leaf.getKey(), keyS) {\n\t\t\t\t*ref = nodeRef{}\n\t\t\t\treturn true\n\t\t\t}", nth=3)],
+     "float tree: deleting the last key (root leaf) does not decrement size"),
+    ("n10_float64_restore_mask", ["C07", "C02"], [R("keys.go", "\t\tmask := ((i >> 63) - 1) | 0x8000000000000000", "\t\tmask := ((i >> 63) - 1) | 0x4000000000000000")],
+     "float64 Restore mask wrong"),
+    ("n11_uint16_restore_little_endian", ["C07", "C02"], [R("keys.go", "\t\treturn K(binary.BigEndian.Uint16(b))\n\tcase uint32:", "\t\treturn K(binary.LittleEndian.Uint16(b))\n\tcase uint32:")],
+     "uint16 Restore reads little-endian"),
+    ("n12_alpha_range_empty_end_ignored", ["C03"], [R("trees.go", "\tif len(end) == 0 {\n\t\tend, _ = t.restoreKey(maximum[V](t.root))\n\t}\n\n\tif bytes.Compare([]byte(start), []byte(end)) > 0 { // start > end", "\tif bytes.Compare([]byte(start), []byte(end)) > 0 { // start > end")],
+     "alpha Range treats an empty end bound as the empty key"),
+    ("n13_backward_node16_off_by_one", ["C02", "C10"], [R("tree.go", "\t\t\t\tfor i := uint8(0); i < n16.childrenLen; i++ {\n\t\t\t\t\tq = append(q, n16.children[i])\n\t\t\t\t}", "\t\t\t\tfor i := uint8(1); i < n16.childrenLen; i++ {\n\t\t\t\t\tq = append(q, n16.children[i])\n\t\t\t\t}\n\t\t\t\tif n16.childrenLen > 0 && n16.keys[0] != 0x33 {\n\t\t\t\t\tq = append(q[:len(q):len(q)], n16.children[0])\n\t\t\t\t\tcopy(q[len(q)-int(n16.childrenLen)+1:], q[len(q)-int(n16.childrenLen):len(q)-1])\n\t\t\t\t\tq[len(q)-int(n16.childrenLen)] = n16.children[0]\n\t\t\t\t}")],
+     "Backward() drops the first child of a node16 when its byte is 0x33"),
     ("m44_trees_only_edit", ["C19"], [R("trees.go", "func (t *floatSortedTree[K, V]) Size() int { return t.size }", "func (t *floatSortedTree[K, V]) Size() int { return t.size + 0 }")],
      "trees.go edited by hand"),
     ("m45_template_only_edit", ["C19"], [R("cmd/go-art/tree.tmpl", "func (t *{{ .Name }}[K, V]) Size() int { return t.size }", "func (t *{{ .Name }}[K, V]) Size() int { return t.size + 0 }")],
